@@ -37,7 +37,6 @@ pub mod address {
     use std::net::SocketAddr;
     use std::net::SocketAddrV4;
     use std::net::SocketAddrV6;
-    use std::string::FromUtf8Error;
 
     use tokio_util::bytes::Buf;
     use tokio_util::bytes::BufMut;
@@ -75,9 +74,25 @@ pub mod address {
         Ok(())
     }
 
-    pub fn read_address_port(buf: &mut Bytes) -> Result<Address, FromUtf8Error> {
+    pub fn read_address_port(buf: &mut Bytes) -> anyhow::Result<Address> {
+        if buf.remaining() < 3 {
+            anyhow::bail!("truncated address");
+        }
         let port = buf.get_u16();
-        let addr_type = AddressType::new(buf.get_u8());
+        let addr_type = buf.get_u8();
+        if addr_type != AddressType::Ipv4 as u8 && addr_type != AddressType::Domain as u8 && addr_type != AddressType::Ipv6 as u8 {
+            anyhow::bail!("unsupported address type: {}", addr_type);
+        }
+        let addr_type = AddressType::new(addr_type);
+        let need = match addr_type {
+            AddressType::Ipv4 => 4,
+            AddressType::Domain if !buf.has_remaining() => anyhow::bail!("truncated address"),
+            AddressType::Domain => 1 + buf[0] as usize,
+            AddressType::Ipv6 => 16,
+        };
+        if buf.remaining() < need {
+            anyhow::bail!("truncated address: expecting {} bytes, but found {} bytes", need, buf.remaining());
+        }
         match addr_type {
             AddressType::Ipv4 => Ok(Address::from(SocketAddr::V4(SocketAddrV4::new(Ipv4Addr::from(buf.get_u32()), port)))),
             AddressType::Domain => {
